@@ -499,10 +499,13 @@ Proof.
   { induction b as [|x b IH]; intros acc Ha Hb; simpl; [exact Ha|]. inversion Hb; subst. apply IH; [lia | assumption]. }
   apply G. lia.
 Qed.
+Lemma some_inj {A} (x y : A) : Some x = Some y -> x = y.
+Proof. intros H. injection H. auto. Qed.
 Lemma to16_nonneg b z : wf_bytes b -> to16 b = Some z -> 0 <= z.
 Proof.
   intros Hb. unfold to16. pose proof (be_nonneg b Hb). pose proof Z4_pos.
-  destruct (length b) as [|[|[|[|[|[|[|[|[|[|[|[|[|[|[|[|[|n]]]]]]]]]]]]]]]]]; intros E; inversion E; lia.
+  destruct (length b =? 4)%nat; [intros E; apply some_inj in E; lia|].
+  destruct (length b =? 16)%nat; intros E; [apply some_inj in E; lia | discriminate].
 Qed.
 Lemma insert_pair_wf s e r : wf_bytes s -> wf_bytes e -> insert_pair s e = Some r -> wf_rng r = true.
 Proof.
@@ -510,7 +513,8 @@ Proof.
   destruct (to16 e) as [e16|] eqn:E2; [|discriminate].
   pose proof (to16_nonneg _ _ Hs E1).
   destruct (negb (Bool.eqb (is_v4 s16) (is_v4 e16))); [discriminate|].
-  destruct (e16 <? s16) eqn:E3; [discriminate|]. intros E; inversion E; subst. unfold wf_rng. simpl. lia.
+  destruct (e16 <? s16) eqn:E3; [discriminate|]. intros E. apply some_inj in E. subst r.
+  unfold wf_rng. cbn [fst snd]. lia.
 Qed.
 Lemma loaded_items_wf i : wf_input i -> forallb wf_rng (loaded_items i) = true.
 Proof.
@@ -542,3 +546,13 @@ Proof.
     rewrite (search_exact _ _ _ _ _ go_insertion_sort_valid go_insertion_sort_valid Hw Hg). reflexivity. }
   rewrite Hm. apply val_eqb_refl.
 Qed.
+
+Lemma C19_nonvacuous_lemma :
+  let a := Z4 + 167772160 in
+  let items := [(a + 10, a + 20); (a + 15, a + 30); (a + 12, a + 13); (a + 30, a + 31); (a + 33, a + 40);
+                (a + 10, a + 20); (5, 9)] in
+  forallb wf_rng items = true /\ no_zero_sentinel items = true /\
+  build go_insertion_sort items = [(a + 33, a + 40); (a + 10, a + 31); (5, 9)] /\
+  map (fun ip => table_search [7] (build go_insertion_sort items) ip) [a + 9; a + 10; a + 31; a + 32; a + 33; a + 41; 4; 5; 9; 10; 7]
+  = [false; true; true; false; true; false; false; true; true; false; true].
+Proof. vm_compute. auto. Qed.
